@@ -316,10 +316,15 @@ def _merge_dist(a, b):
 
 
 def load_known(prop):
-    if not KNOWN.exists():
-        return []
-    data = json.loads(KNOWN.read_text())
-    return [f for f in data.get("findings", []) if f.get("property") == prop and f.get("status") == "finding"]
+    """known findings = known_findings.json + known_findings.d/*.json (same format, one file per property)"""
+    res = []
+    files = [KNOWN] + sorted((VERIF / "known_findings.d").glob("*.json"))
+    for fp in files:
+        if not fp.exists():
+            continue
+        data = json.loads(fp.read_text())
+        res += [f for f in data.get("findings", []) if f.get("property") == prop and f.get("status") == "finding"]
+    return res
 
 
 def jsonable(x):
